@@ -163,6 +163,12 @@ def build(recipe, pt_class=Pt, perm=0):
             return datetime.datetime(rc[1], rc[2], rc[3], rc[4], rc[5], rc[6], rc[7], tzinfo=tz)
         if t == 'pt':
             return pt_class(rc[1], rc[2])
+        if t == 'shared':
+            # a leaf object that occurs several times in the value (the *same* object, not an equal one)
+            key = ('leaf', rc[1])
+            if key not in made:
+                made[key] = mk(rc[2])
+            return made[key]
         if t == 'ref':
             if rc[1] in made:
                 return made[rc[1]]
